@@ -212,23 +212,23 @@ class ConcRun:
         me = self
 
         class Spy(CircuitBreaker):
-            def allow(s):
-                d = super().allow()
+            def allow(s, *a, **kw):
+                d = super().allow(*a, **kw)
                 me.events.append((me.cur, ("br.allow", d.allowed, d.state.value, d.event, world.t)))
                 return d
 
-            def record_success(s):
-                r = super().record_success()
+            def record_success(s, *a, **kw):
+                r = super().record_success(*a, **kw)
                 me.events.append((me.cur, ("br.success", r, world.t)))
                 return r
 
-            def record_failure(s, klass):
-                r = super().record_failure(klass)
+            def record_failure(s, klass, *a, **kw):
+                r = super().record_failure(klass, *a, **kw)
                 me.events.append((me.cur, ("br.failure", klass.name, r, world.t)))
                 return r
 
-            def record_cancel(s):
-                super().record_cancel()
+            def record_cancel(s, *a, **kw):
+                super().record_cancel(*a, **kw)
                 me.events.append((me.cur, ("br.cancel", world.t)))
 
         br = prog["breaker"]
